@@ -3,10 +3,12 @@
 cd "$(dirname "$0")/.." || exit 2
 /venv/bin/python -m harness.setup > /dev/null || exit 2
 TIER=${1:-quick}; shift
+BAD=0
 for s in ${@:-1 2 3}; do
   for p in $(python3 -c "import json; print(' '.join(c['property_id'] for c in json.load(open('MANIFEST.json'))['checks']))"); do
     out=$(VERIF_SEED=$s ./check $p --tier $TIER 2>&1); rc=$?
     echo "seed=$s $p rc=$rc $(echo "$out" | grep -c '^VIOLATION') violations; $(echo "$out" | tail -1 | cut -c1-140)"
-    [ $rc -ne 0 ] && echo "$out" | tail -5
+    if [ $rc -ne 0 ]; then BAD=1; echo "$out" | tail -5; fi
   done
 done
+exit $BAD
